@@ -67,6 +67,10 @@ chk("C19", "Coq theorems: Object equality is symmetric for duplicate-free object
     "PARTIAL as C04: the in-memory Serializer/Deserializer for Value are tied by the correspondence, not transcribed.",
     "Coq proof (pigeonhole argument for equality, round trip) + model-vs-code correspondence")
 
+chk("C17", "Coq theorems: a vector compare against a splatted byte + movemask + trailing_zeros locates the first byte with the property for every lane count; the portable shift-xor prefix_xor equals the carry-less-multiply specification; the escaped-character bitmap is the same function at every even word width. All models are written against the scalar lane-wise meaning (Model/Simd.v). Tie: every primitive through both builds (AVX2+PCLMUL native; SSE2 + portable fallbacks) against the model with every byte value as focus lane, and the full quick suites of C02 C03 C05 C09 C10 C12 through both builds compared line by line.",
+    "Intel intrinsic semantics are observed on this CPU, not proved; NEON and the pure v128 backend are not buildable here.",
+    "Coq proof (bit-list lemmas) + two-build correspondence")
+
 NA = {}
 ALL = ["C%02d" % i for i in range(1, 21)]
 for p in ALL:
